@@ -45,6 +45,16 @@ def run_schedule(subject, sched, seed, scen):
     """execute one schedule; returns the trace"""
     kind, name = subject
     ids = Ids()
+    if kind == "stream-shared":
+        # both twins are constructed with the SAME budget manager object, which has already been used through
+        # its public API: a strategy works on its own copy, so the twins must still agree
+        mgr = sc_.manager_factories()[scen["mgr"]](scen["budget"], 4, seed + 1)
+        wr = np.random.RandomState(scen["dseed"] + 5)
+        for _ in range(4):
+            wu = wr.rand(3)
+            wq = mgr.query_by_utility(wu)
+            sc_._call_update(mgr, True, np.zeros((3, 1)), wq, wu)
+        scen = dict(scen, shared_manager=mgr)
     twins = {"A": _make(kind, name, seed, scen), "B": _make(kind, name, seed, scen)}
     hist = {"A": 0, "B": 0}
     events = []
@@ -77,11 +87,12 @@ def run_schedule(subject, sched, seed, scen):
                                                                                        "draw": "d"}[a] for a in sched),
                                            seed, scen.get("tag", "-")),
             "events": events,
-            "concrete": {"subject": list(subject), "schedule": sched, "seed": seed, "scenario": scen,
+            "concrete": {"subject": list(subject), "schedule": sched, "seed": seed,
+                         "scenario": {k: v for k, v in scen.items() if k != "shared_manager"},
                          "how": "harness.drivers.c06.run_schedule(subject, schedule, seed, scenario)"}}
 
 
-STATEFUL = {"stream", "manager"}
+STATEFUL = {"stream", "manager", "stream-shared"}
 
 
 def _make(kind, name, seed, scen):
@@ -100,7 +111,7 @@ def _make(kind, name, seed, scen):
                            batch_size=conc["batch_size"], return_utilities=True, **kw)
             return [1, 0], _res_digest(res)
         return call
-    if kind in ("stream", "manager"):
+    if kind in ("stream", "manager", "stream-shared"):
         rng = np.random.RandomState(scen["dseed"])
         n_steps, width = 4, 5
         Xs = rng.randint(0, 6, size=(n_steps * width, 1)).astype(float)
@@ -108,6 +119,9 @@ def _make(kind, name, seed, scen):
         clf, _, _ = sc_.make_clf(scen["dseed"])
         if kind == "manager":
             obj = sc_.manager_factories()[name](scen["budget"], 4, seed)
+        elif kind == "stream-shared":
+            fac, _ = sc_.strategy_factories()[name]
+            obj = fac(None, seed, manager=scen["shared_manager"])
         else:
             fac, _ = sc_.strategy_factories()[name]
             obj = fac(scen["budget"], seed)
@@ -239,6 +253,12 @@ def main(tier="quick", seed=0):
     for name in sorted(sc_.strategy_factories()):
         for _ in range(reps):
             subjects.append((("stream", name), {"dseed": int(rng.integers(1000)), "budget": float(rng.choice([0.25, 0.5, 1.0]))}))
+    mgr_names = sorted(sc_.manager_factories())
+    for name in sorted(n_ for n_, (f_, takes) in sc_.strategy_factories().items() if takes):
+        for r_ in range(max(2, reps // 3)):
+            subjects.append((("stream-shared", name), {"dseed": int(rng.integers(1000)),
+                                                       "budget": float(rng.choice([0.25, 0.5, 1.0])),
+                                                       "mgr": mgr_names[int(rng.integers(len(mgr_names)))]}))
     for name in sorted(sc_.manager_factories()):
         for _ in range(reps):
             subjects.append((("manager", name), {"dseed": int(rng.integers(1000)), "budget": float(rng.choice([0.25, 0.5, 1.0]))}))
